@@ -22,7 +22,7 @@ def main():
     dst = os.path.join(V, "seeded", name)
     os.makedirs(dst, exist_ok=True)
     for f in ("patch.diff", "zz_demo_test.go", "meta.json"):
-        if os.path.exists(os.path.join(out, f)):
+        if os.path.exists(os.path.join(out, f)) and os.path.abspath(os.path.join(out, f)) != os.path.abspath(os.path.join(dst, f)):
             shutil.copy(os.path.join(out, f), os.path.join(dst, f))
     meta = json.load(open(os.path.join(dst, "meta.json"))) if os.path.exists(os.path.join(dst, "meta.json")) else {}
     demo = [l for l in open(os.path.join(dst, "zz_demo_test.go")) if l.startswith("func Test")]
